@@ -26,6 +26,7 @@ KnownDefects == {"ed_no_verify_key",   \* Ed25519Key(filename=..)/(file_obj=..) 
                  "alg_not_text"}       \* Message.get_text raises UnicodeDecodeError on a non-UTF-8 name
 Mutations    == {"mut_skip_alg_check", "mut_ignore_data", "mut_ignore_hash",
                  "mut_strip_zeros",    \* RSA verifier strips all leading zero octets and re-pads (seeded change C35a)
+                 "mut_unsigned_inner", \* ECDSA verifier reads r, s as unsigned octet strings (seeded change C35c)
                  "mut_concat_verify"}  \* Ed25519 verifier checks blob || data as one string, so the boundary between
                                        \* signature and data is "octet 64 of the concatenation" (seeded change C35b)
 ASSUME Defects \subseteq KnownDefects \cup Mutations
@@ -99,7 +100,11 @@ NoTamper   == T("none")
 \* interop alias "blob_alias", for which only an answer is demanded.)
 Whys(t)    == CASE Family(t) = "rsa"     -> {"blob_empty", "blob_short", "blob_long", "blob_zero_prepended"}
                 [] Family(t) = "ed25519" -> {"blob_empty", "blob_short", "blob_long", "blob_zero_prepended"}
-                [] OTHER -> {"blob_empty", "inner_negative", "inner_zero", "inner_oversized", "inner_truncated"}
+                \* "inner_sign_dropped": r or s has its top bit set and the 0x00 sign octet RFC 4251 requires in front
+                \* of it is deleted (length fields adjusted): read as an mpint the integer is now NEGATIVE - a changed
+                \* value.  (Mirror image of the answer-only alias "non-minimal mpint", which ADDS zero octets.)
+                [] OTHER -> {"blob_empty", "inner_negative", "inner_sign_dropped", "inner_zero", "inner_oversized",
+                             "inner_truncated"}
 HasAlias(t) == Family(t) # "ed25519"     \* RSA: leading zero bytes dropped; ECDSA: non-minimal mpint / trailing bytes
 Tampers(t, a) == {T(c) : c \in {"none", "alg_unknown", "alg_not_text", "blob_garbage", "frame", "trunc"}}
                  \cup {T(c) : c \in Whys(t)}
@@ -132,6 +137,7 @@ Refine(tm, w, t) ==
                                                        ELSE [w.blob EXCEPT !.k = "malformed", !.why = "blob_long_by_data"]]}
     [] tm.cls = "shift_to_data" -> {[w EXCEPT !.blob = IF Family(t) = "ecdsa" THEN Malformed("inner_truncated")
                                                        ELSE [w.blob EXCEPT !.k = "malformed", !.why = "blob_short_by_data"]]}
+    [] tm.cls = "inner_sign_dropped" -> {[w EXCEPT !.blob = [w.blob EXCEPT !.k = "malformed", !.why = "inner_sign_dropped"]]}
     [] tm.cls = "blob_zero_prepended" -> {[w EXCEPT !.blob = [w.blob EXCEPT !.k = "malformed", !.why = "blob_zero_prepended"]]}
     [] tm.cls = "trunc"        -> {[w EXCEPT !.alg = UnknownF]} \cup {[w EXCEPT !.blob = b] : b \in TruncBlobs(t)}
     \* a corrupted length prefix re-frames the fields: anything a cut can do, a longer blob, or (length
@@ -159,17 +165,20 @@ S_UseVerifyingKey(v) == IF v.type = "ed25519" /\ v.prov \in FileProvs /\ "ed_no_
                         THEN "AttributeError" ELSE "go"
 Normalised(v, w) == /\ "mut_strip_zeros" \in Defects /\ Family(v.type) = "rsa"
                     /\ w.blob.k = "malformed" /\ w.blob.why = "blob_zero_prepended"
+Unsigned(v, w) == /\ "mut_unsigned_inner" \in Defects /\ Family(v.type) = "ecdsa"
+                  /\ w.blob.k = "malformed" /\ w.blob.why = "inner_sign_dropped"
 Concatenated(v, w, d) == /\ "mut_concat_verify" \in Defects /\ Family(v.type) = "ed25519"
                          /\ w.blob.k = "malformed"
                          /\ \/ (w.blob.why = "blob_long_by_data" /\ d = "d1_rest")
                             \/ (w.blob.why = "blob_short_by_data" /\ d = "tail_d1")
 S_DecodeBlob(v, w, d) ==
-  IF w.blob.k # "malformed" \/ Normalised(v, w) \/ Concatenated(v, w, d) THEN "go"
+  IF w.blob.k # "malformed" \/ Normalised(v, w) \/ Unsigned(v, w) \/ Concatenated(v, w, d) THEN "go"
   ELSE IF Family(v.type) = "ed25519" /\ "ed_sig_length" \in Defects THEN "ValueError"
-  ELSE IF Family(v.type) = "ecdsa" /\ w.blob.why = "inner_negative" /\ "ecdsa_negative" \in Defects THEN "ValueError"
+  ELSE IF Family(v.type) = "ecdsa" /\ w.blob.why \in {"inner_negative", "inner_sign_dropped"}
+          /\ "ecdsa_negative" \in Defects THEN "ValueError"
   ELSE "false"
 S_Crypto(v, w, d) ==
-  IF /\ (w.blob.k \in {"sig", "alias"} \/ Normalised(v, w) \/ Concatenated(v, w, d))
+  IF /\ (w.blob.k \in {"sig", "alias"} \/ Normalised(v, w) \/ Unsigned(v, w) \/ Concatenated(v, w, d))
      /\ w.blob.type = v.type /\ w.blob.mat = v.mat
      /\ (w.blob.hash = UseHash(v, w) \/ "mut_ignore_hash" \in Defects)
      /\ (w.blob.data = d \/ "mut_ignore_data" \in Defects \/ Concatenated(v, w, d))
